@@ -20,7 +20,8 @@ def lean_check(fname, theorems, timeout=900):
         res = []
         errs = [l for l in out.splitlines() if ': error' in l]
         for t in theorems:
-            m = re.search(rf"'{re.escape(t)}' depends on axioms: \[(.*?)\]", out, re.S)
+            m = re.search(rf"'{re.escape(t)}' depends on axioms: \[(.*?)\]", out, re.S) or \
+                re.search(rf"'{re.escape(t)}' does not depend on any axioms()", out)
             ok = r.returncode == 0 and not errs and m is not None and 'sorryAx' not in m.group(1)
             res.append(dict(name=f"lean/{fname}::{t}", ok=ok, backend='lean', time=time.time() - t0,
                             detail=(f"axioms: [{m.group(1)}]" if m else 'theorem not found in #print axioms output') +
